@@ -168,6 +168,13 @@ pub fn verif_set_stack_capacity(capacity: usize) {
     LOCAL_SPAN_STACK.with(|stack| stack.borrow_mut().capacity = capacity);
 }
 
+/// Sets the epoch the calling thread's next span line gets (verification hook): lets a run start
+/// from the state a long-lived thread reaches after many scopes.
+#[cfg(fastrace_verif)]
+pub fn verif_set_next_span_line_epoch(epoch: usize) {
+    LOCAL_SPAN_STACK.with(|stack| stack.borrow_mut().next_span_line_epoch = epoch);
+}
+
 pub struct SpanLineHandle {
     span_line_epoch: usize,
 }
